@@ -198,14 +198,15 @@ fn race_programs() -> Vec<Program> {
     let p = |kind: &str, a: &str, b: &str, ty: &str, ty2: &str, pp: &str| Program {
         kind: kind.into(), a: a.into(), b: b.into(), e: "e0".into(), ty: ty.into(), ty2: ty2.into(), p: pp.into(), ..Default::default()
     };
-    vec![p("SetAtom", "S", "S", "tA", "tA", "p0"), p("RetypeByAtt", "S", "S", "tB", "tA", "p0"), p("SetAtom", "S", "S", "tA", "tA", "p1")]
+    vec![p("SetAtom", "S", "S", "tA", "tA", "p0"), p("RetypeByAtt", "S", "S", "tB", "tA", "p0"), p("SetAtom", "S", "S", "tA", "tA", "p1"),
+         p("DoubleSet", "S", "S", "tA", "tA", "p0")]
 }
 
 fn race_tick(state: &WarpState, picks: &[(usize, String, String)], workers: usize, record: bool)
     -> Result<(Value, Vec<(usize, usize, usize)>), String> {
     let root = NodeKey { warp_id: ids::warp("w0"), local_id: ids::node("n0") };
     let mut engine = EngineBuilder::from_state(state.clone(), root).workers(workers).build().map_err(|e| format!("{e:?}"))?;
-    for r in 1..=3 {
+    for r in 1..=4 {
         engine.register_rule(programs::rule(r)).map_err(|e| format!("{e:?}"))?;
     }
     let tx = engine.begin();
@@ -235,7 +236,7 @@ pub fn run_race(args: &[String]) -> i32 {
     let mut out = util::Out::create(&args[0]);
     programs::install(&race_programs());
     let mut violations: Vec<Value> = Vec::new();
-    let (mut total_units, mut max_workers) = (0usize, 0usize);
+    let (mut total_units, mut max_workers, mut failed_consistently) = (0usize, 0usize, 0usize);
     for run in 0..runs {
         let warps = 1 + run % 3;
         let n = [24usize, 64, 150, 400, 700][run % 5];
@@ -243,39 +244,52 @@ pub fn run_race(args: &[String]) -> i32 {
         // every scope gets rule 1 or rule 2 (independent per node); some also get rule 3 (conflicts with rule 1 -> rejected)
         let mut picks: Vec<(usize, String, String)> = Vec::new();
         for (w, lbl) in &scopes {
-            let r = if rng.gen_bool(0.5) { 1 } else { 2 };
+            // every 4th run: a few rewrites write their own slot twice with different values (the merge must
+            // refuse the tick under every schedule, never pick a winner that depends on the schedule)
+            let r = if run % 4 == 3 && rng.gen_bool(0.05) { 4 } else if rng.gen_bool(0.5) { 1 } else { 2 };
             picks.push((r, w.clone(), lbl.clone()));
             if rng.gen_bool(0.1) {
                 picks.push((3, w.clone(), lbl.clone()));
             }
         }
-        let serial = match race_tick(&state, &picks, 1, false) {
-            Ok((h, _)) => h,
-            Err(e) => { eprintln!("serial run failed: {e}"); return 2; }
-        };
+        let serial = race_tick(&state, &picks, 1, false).map(|(h, _)| h);
         let workers = 1 + (run * 7 + rng.gen_range(0..4)) % 32;
         max_workers = max_workers.max(workers);
-        match race_tick(&state, &picks, workers, true) {
-            Ok((h, log)) => {
-                let units = log.len();
-                total_units += units;
-                let w_eff = log.iter().map(|(w, _, _)| *w + 1).max().unwrap_or(1);
-                out.line(&json!({"event":"run","workers":workers,"units":units,"nworkers_seen":w_eff}));
-                let mut per: Vec<Vec<(usize, usize)>> = vec![Vec::new(); w_eff];
-                for (w, seq, u) in &log {
-                    per[*w].push((*seq, *u));
+        // the parallel run is repeated: different real interleavings of the same tick
+        for rep in 0..2 {
+            let par = {
+                warp_core::verif::set_claim_script(None);
+                let r = race_tick(&state, &picks, workers, true);
+                if r.is_err() { let _ = warp_core::verif::take_claim_log(); }
+                r
+            };
+            match (&serial, par) {
+                (Ok(sh), Ok((h, log))) => {
+                    let units = log.len();
+                    total_units += units;
+                    let w_eff = log.iter().map(|(w, _, _)| *w + 1).max().unwrap_or(1);
+                    out.line(&json!({"event":"run","workers":workers,"units":units,"nworkers_seen":w_eff}));
+                    let mut per: Vec<Vec<(usize, usize)>> = vec![Vec::new(); w_eff];
+                    for (w, seq, u) in &log {
+                        per[*w].push((*seq, *u));
+                    }
+                    for (w, mut claims) in per.into_iter().enumerate() {
+                        claims.sort();
+                        out.line(&json!({"event":"claims","w":w + 1,"units":claims.iter().map(|(_, u)| *u).collect::<Vec<_>>()}));
+                    }
+                    let same = h == *sh;
+                    out.line(&json!({"event":"end","same":same}));
+                    if !same {
+                        violations.push(json!({"kind":"racing_outcome_differs_from_serial","detail":format!("run {run}.{rep}: workers={workers} units={units}: {h} vs serial {sh}")}));
+                    }
                 }
-                for (w, mut claims) in per.into_iter().enumerate() {
-                    claims.sort();
-                    out.line(&json!({"event":"claims","w":w + 1,"units":claims.iter().map(|(_, u)| *u).collect::<Vec<_>>()}));
+                (Err(_), Err(_)) => {
+                    // the tick is refused under both schedules (e.g. conflicting ops of one rewrite): consistent
+                    failed_consistently += 1;
                 }
-                let same = h == serial;
-                out.line(&json!({"event":"end","same":same}));
-                if !same {
-                    violations.push(json!({"kind":"racing_outcome_differs_from_serial","detail":format!("run {run}: workers={workers} units={units}: {h} vs serial {serial}")}));
-                }
+                (Ok(_), Err(e)) => violations.push(json!({"kind":"racing_tick_failed_but_serial_committed","detail":format!("run {run}.{rep}: workers={workers}: {e}")})),
+                (Err(e), Ok(_)) => violations.push(json!({"kind":"racing_tick_committed_but_serial_failed","detail":format!("run {run}.{rep}: workers={workers}: serial {e}")})),
             }
-            Err(e) => violations.push(json!({"kind":"racing_tick_failed","detail":format!("run {run}: {e}")})),
         }
     }
     // policy matrix through the public execute_parallel_with_policy
@@ -296,7 +310,7 @@ pub fn run_race(args: &[String]) -> i32 {
         };
         let serial = canon(vec![execute_serial(GraphView::new(&store), &items)]);
         for (pname, pol) in &policies {
-            for workers in 1..=8usize {
+            for workers in [1usize, 2, 3, 4, 5, 6, 7, 8, 16, 63, 64, 65, 100, 128, 255, 256, 300] {
                 let deltas = execute_parallel_with_policy(GraphView::new(&store), &items, NonZeroUsize::new(workers).unwrap_or(NonZeroUsize::MIN), *pol);
                 policy_runs += 1;
                 if canon(deltas) != serial {
@@ -306,6 +320,6 @@ pub fn run_race(args: &[String]) -> i32 {
         }
     }
     out.finish();
-    println!("{}", json!({"runs":runs,"units":total_units,"max_workers":max_workers,"policy_runs":policy_runs,"violations":violations}));
+    println!("{}", json!({"runs":runs,"units":total_units,"max_workers":max_workers,"policy_runs":policy_runs,"refused_under_every_schedule":failed_consistently,"violations":violations}));
     0
 }
